@@ -114,8 +114,8 @@ fn starved() -> Result<(), String> {
         return Err("HARNESS: getrlimit failed".into());
     }
     let vm = vm_size().ok_or_else(|| "HARNESS: cannot read /proc/self/statm".to_string())?;
-    // one MiB of slack: plenty for the tables (about 60 KiB), not enough for a thread stack or a big mapping
-    let tight = libc::rlimit { rlim_cur: vm + (1 << 20), rlim_max: old.rlim_max };
+    // two MiB of slack: plenty for the tables (about 60 KiB), not enough for a thread stack with its guard page or a big mapping
+    let tight = libc::rlimit { rlim_cur: vm + (2 << 20), rlim_max: old.rlim_max };
     if unsafe { libc::setrlimit(libc::RLIMIT_AS, &tight) } != 0 {
         return Err("HARNESS: setrlimit failed".into());
     }
